@@ -146,17 +146,7 @@ the grid is that constant × the product of the free columns: in the stationary 
 facet's own points (each `B` times), in the non-stationary case the times of the batch × the facet's
 points (`JinnsProofs/C04.lean`: `cart_mean_const_col`, `grid_mean_eq_rows_*`). -/
 
-/-- cartesian product of coordinate columns, first coordinate varying slowest -/
-def cart : List (List Rat) → List (List Rat)
-  | [] => [[]]
-  | col :: rest => col.flatMap fun a => (cart rest).map fun p => a :: p
-
-/-- the `nc` coordinate columns of a list of points -/
-def columns (nc : Nat) (pts : List (List Rat)) : List (List Rat) :=
-  (List.range nc).map fun j => pts.map fun p => p.getD j 0
-
-/-- `_get_grid` of the facet's rows: every combination of one entry per coordinate column -/
-def gridPts (nc : Nat) (pts : List (List Rat)) : List (List Rat) := cart (columns nc pts)
+-- (`cart`, `columns`, `gridPts` are defined in `JinnsModel/LossTerms.lean`)
 
 /-- SPINN branches of `boundary_dirichlet_*` / `boundary_neumann_*` followed by
     `jnp.mean(loss_weight * …)`: same per-point mismatch (`u(grid)[..., dim] - f(grid)`, resp. the
